@@ -318,7 +318,17 @@ class Model:
                     with W.quiet():
                         d = [asn.overstatement_assorter(mm, cc, use_style=style) for mm, cc in zip(run.mvr_sample, run.cvr_sample)
                              if (not style) or (cc.has_contest(cid) and cc.sample_num <= con.sample_threshold)]
-                        p, h = W.spec_test(ns, run.world["contests"][cid], asn, asn.test.u).test(np.array(d, dtype=float))
+                        d_lib, _u = asn.mvrs_to_data(run.mvr_sample, run.cvr_sample)
+                    d_lib = [float(v) for v in d_lib]
+                    if len(d_lib) != len(d) or any(not tight(a_, b_) for a_, b_ in zip(d_lib, d)):
+                        out.violate("C09.a", f"corrected-record/data/{run.world['contests'][cid]['test']}",
+                                    f"{cid}/{key}: after record {old.id} was replaced in the sample, the sample converts to "
+                                    f"{d_lib[:6]}; scored pair by pair as it now stands it is {[float(v) for v in d[:6]]}")
+                        continue
+                    # (the p-value is taken on the library's own numbers, now known to be the current ones up to rounding: a
+                    # last-bit difference can decide the final-sample rule 'total > N t', which is not what is examined here)
+                    with W.quiet():
+                        p, h = W.spec_test(ns, run.world["contests"][cid], asn, asn.test.u).test(np.array(d_lib, dtype=float))
                     if not tight(float(asn.p_value), float(p)):
                         out.violate("C09.a", f"corrected-record/{run.world['contests'][cid]['test']}",
                                     f"{cid}/{key}: after record {old.id} was replaced in the sample and the p-values set again, the "
